@@ -57,8 +57,9 @@ let gen_rstring st : rstring =
   | _ -> let s = gen_bytes st in SRaw (form st (String.length s), bs s)
 
 let gen_key st : rstring =
-  let s = rnd_pick st [ "k"; "key:" ^ string_of_int (rnd_int st 1000); "{tag}" ^ rnd_string_of st "abc" 3; rnd_string st (1 + rnd_int st 12); string_of_int (rnd_int st 300) ] in
-  if rnd_int st 6 = 0 then (match int_of_string_opt s with
+  let s = rnd_pick st [ "k"; "key:" ^ string_of_int (rnd_int st 1000); "{tag}" ^ rnd_string_of st "abc" 3; rnd_string st (1 + rnd_int st 12); string_of_int (rnd_int st 300);
+                        string_of_int (rnd_pick st [ -1; -128; -129; -1000; -32768; 32767; 128; -5 - rnd_int st 30000 ]) ] in
+  if rnd_int st 3 = 0 then (match int_of_string_opt s with
     | Some i when i >= -128 && i < 128 -> SInt8 (z_of_int i)
     | Some i when i >= -32768 && i < 32768 -> SInt16 (z_of_int i) | _ -> SRaw (form st (String.length s), bs s))
   else SRaw (form st (String.length s), bs s)
